@@ -31,7 +31,7 @@ func init() {
 		Rule: "cases: (codec/*) every message kind (leave, join, push/pull, user event, query, query response, conflict response=Member, key request, key response, node/tag filters) with every field drawn from strings {\"\", \"a\", 0xff-leading, invalid UTF-8, 300 bytes}, LTimes {0,1,2^32,2^63,2^64-1}, byte slices {nil, empty, 1 byte, non-UTF-8, 300 bytes} (thorough: also lengths 31/32/255/256/65535/65536 and integer width boundaries), full products per kind (query: product of all string/bytes fields x product of all numeric fields around two bases), both sender time-format flags; encode with the real encoder, decode with the real decoder into a fresh value, compare (nil == empty). " +
 			"(delegate/*) the same kinds delivered through the real delegate of a receiver of every protocol version 2..5 (NotifyMsg / MergeRemoteState) and compared at the observable the application or the next hop sees (intent table, member status, EventCh, ack and reply packets and their destination, QueryResponse channels). " +
 			"(e2e/*) real sender API (UserEvent, Query with node+tag filters, Respond with relay factor 0/1, LocalState) -> wire bytes -> real receiver; the relay hop runs on a third real node; both outcomes of the random relay pick are run. " +
-			"(relay/forward) 120 relay headers (name x IPv4/IPv4-in-16/IPv6/nil x port x zone) x 830 trailing byte strings (every reply encoding, every first byte 0..255 x 3 tails): forwarded packet == trailing bytes exactly and goes to header destination. " +
+			"(relay/forward) 120 relay headers (name x IPv4/IPv4-in-16/IPv6/nil x port x zone) x 833 trailing byte strings (every reply encoding, three replies in non-canonical msgpack form, every first byte 0..255 x 3 tails): forwarded packet == trailing bytes exactly and goes to header destination. " +
 			"(tags/*) 407 tag maps (nil, empty, all 1-entry and 2-entry maps over 6 keys x 5 values) x sender version 2..5 x receiver version 2..5 at the codec, and through Create/NodeMeta/NotifyJoin/SetTags/NotifyUpdate into the receiver's member table; (tags/limit) tag maps of 5 shapes whose encoding is 505..520 bytes at every version through Create and SetTags. " +
 			"non-trivial = case with at least one non-zero field / non-empty tag map / encoded length within 8 bytes of the limit",
 		Assumptions: []string{
@@ -187,6 +187,13 @@ type c32gen struct {
 	thorough bool
 }
 
+// sample records a written-out case once (shard 0).
+func (g *c32gen) sample(scn *vc.Scenario, v interface{}) {
+	if g.ctx.Shard == 0 {
+		scn.Sample(v)
+	}
+}
+
 func (g *c32gen) mine() bool {
 	*g.idx++
 	return g.ctx.Mine(*g.idx)
@@ -236,7 +243,7 @@ func c32codec(g *c32gen) {
 			}
 		}
 	}
-	scn.Sample("leave{LTime:2^63 Node:\"\\xffab\" Prune:true} -> identical")
+	g.sample(scn, "leave{LTime:2^63 Node:\"\\xffab\" Prune:true} -> identical")
 
 	scn = g.ctx.Scn("codec/user-event", "cases")
 	for _, l := range lts {
@@ -248,7 +255,7 @@ func c32codec(g *c32gen) {
 			}
 		}
 	}
-	scn.Sample("userEvent{LTime:2^64-1 Name:\"\\xc3(\" Payload:[]} -> Payload nil (equivalent)")
+	g.sample(scn, "userEvent{LTime:2^64-1 Name:\"\\xc3(\" Payload:[]} -> Payload nil (equivalent)")
 
 	ids := []uint32{0, 1, 1 << 31, ^uint32(0)}
 	flags := []uint32{0, 1, 2, ^uint32(0)}
@@ -305,7 +312,7 @@ func c32codec(g *c32gen) {
 			}
 		}
 	}
-	scn.Sample("query{LTime:2^63 ID:2^32-1 Port:65535 Flags:2^32-1 RelayFactor:255 Timeout:-2^63 ...} -> identical")
+	g.sample(scn, "query{LTime:2^63 ID:2^32-1 Port:65535 Flags:2^32-1 RelayFactor:255 Timeout:-2^63 ...} -> identical")
 
 	// push/pull
 	scn = g.ctx.Scn("codec/push-pull", "cases")
@@ -331,7 +338,7 @@ func c32codec(g *c32gen) {
 			}
 		}
 	}
-	scn.Sample("pushPull{StatusLTimes:{\"\\xffab\":2^64-1,...} Events:[nil,{LTime:2^64-1 Events:[{\"\" nil},...]},nil,...]} -> identical")
+	g.sample(scn, "pushPull{StatusLTimes:{\"\\xffab\":2^64-1,...} Events:[nil,{LTime:2^64-1 Events:[{\"\" nil},...]},nil,...]} -> identical")
 
 	// conflict response (Member), key request/response, filters
 	scn = g.ctx.Scn("codec/member+key+filter", "cases")
@@ -544,8 +551,8 @@ func c32tagsCodec(g *c32gen) {
 			n.S.Shutdown()
 		}
 	})
-	scn.Sample("sender v2 {\"role\":\"v\" \"a\":\"x\"} -> receiver v5 {\"role\":\"v\"}")
-	scn.Sample("sender v4 {\"\\xffk\":\"\\xc3(\" \"role\":300 bytes} -> receiver v2 identical map")
+	g.sample(scn, "sender v2 {\"role\":\"v\" \"a\":\"x\"} -> receiver v5 {\"role\":\"v\"}")
+	g.sample(scn, "sender v4 {\"\\xffk\":\"\\xc3(\" \"role\":300 bytes} -> receiver v2 identical map")
 }
 
 func c32clip(b []byte) []byte {
@@ -637,7 +644,7 @@ func c32tagsMember(g *c32gen) {
 			}
 		}
 	}
-	scn.Sample("sender v3 Create{\"role\":\"\\xffv\"} -> NodeMeta -> receiver v2 NotifyJoin -> Members()[snd].Tags identical; SetTags{\"a\":\"v\"} -> NotifyUpdate -> identical")
+	g.sample(scn, "sender v3 Create{\"role\":\"\\xffv\"} -> NodeMeta -> receiver v2 NotifyJoin -> Members()[snd].Tags identical; SetTags{\"a\":\"v\"} -> NotifyUpdate -> identical")
 }
 
 // c32shapes builds tag maps of a given family with a size parameter n.
@@ -735,8 +742,8 @@ func c32tagsLimit(g *c32gen) {
 			}
 		}
 	}
-	scn.Sample("protocol 3, 57 entries of 4+4 bytes: raw 456 bytes, encoded 513 bytes -> SetTags rejected, NodeMeta unchanged")
-	scn.Sample("protocol 2, {\"k\": 1200 bytes}: encoding is the empty role (0 bytes) -> accepted")
+	g.sample(scn, "protocol 3, 57 entries of 4+4 bytes: raw 456 bytes, encoded 513 bytes -> SetTags rejected, NodeMeta unchanged")
+	g.sample(scn, "protocol 2, {\"k\": 1200 bytes}: encoding is the empty role (0 bytes) -> accepted")
 }
 
 func c32rawLen(t map[string]string) int {
@@ -778,6 +785,11 @@ func c32blobs(T bool) [][]byte {
 	out = append(out, c32mustEnc(serf.VMsgUserEvent, &serf.VMessageUserEvent{LTime: 5, Name: "e", Payload: []byte{1}}, false))
 	hdr := c32mustEnc(serf.VMsgRelay, &serf.VRelayHeader{DestAddr: net.UDPAddr{IP: net.IPv4(9, 9, 9, 9), Port: 9}, DestName: "nested"}, false)
 	out = append(out, append(hdr, out[0]...)) // a relay inside a relay
+	// well-formed replies in a different but valid msgpack form (another implementation or a newer
+	// version): wider integers, an unknown extra field, other field order, str8/bin8 headers
+	out = append(out, []byte("\x05\x86\xa5LTime\xcf\x00\x00\x00\x00\x00\x00\x00\x05\xa2ID\xce\x00\x00\x00\x09\xa4From\xa1n\xa5Flags\x00\xa7Payload\xc0\xa5Extra\x01"))
+	out = append(out, []byte("\x05\x85\xa7Payload\xa1p\xa4From\xa1n\xa5Flags\x00\xa2ID\x09\xa5LTime\x05"))
+	out = append(out, []byte("\x05\x85\xa5LTime\x05\xa2ID\x09\xa4From\xd9\x01n\xa5Flags\x00\xa7Payload\xc4\x01p"))
 	tails := [][]byte{{}, {0}, []byte("\x85\xa5LTime\x01\xa2ID\x02")}
 	for b := 0; b < 256; b++ {
 		for _, t := range tails {
@@ -842,7 +854,7 @@ func c32relayForward(g *c32gen) {
 			}
 		}
 	}
-	scn.Sample("[9][hdr{DestName:\"\\xffab\" DestAddr:[2001:db8::1%eth0]:65535}][5 85 a5 'LTime' ...] -> one packet to \"\\xffab/[2001:db8::1%eth0]:65535\" == trailing bytes")
+	g.sample(scn, "[9][hdr{DestName:\"\\xffab\" DestAddr:[2001:db8::1%eth0]:65535}][5 85 a5 'LTime' ...] -> one packet to \"\\xffab/[2001:db8::1%eth0]:65535\" == trailing bytes")
 }
 
 func c32clipS(s string) string {
@@ -908,7 +920,6 @@ func (g *c32gen) run(scn *vc.Scenario, what string, nontrivial bool, prefixes []
 	for _, p := range prefixes {
 		if !c32exec(g.ctx, scn.Name, p, what, func() {
 			vsched.Branching(false)
-			vsched.SetHorizon(int64(30 * time.Second))
 			body(c)
 		}) {
 			c.out = "crashed"
@@ -969,6 +980,7 @@ func c32delegate(g *c32gen) {
 				}
 				rc, l, prune := rc, l, prune
 				g.run(scn, fmt.Sprintf("receiver v%d: leave{LTime:%d Node:b Prune:%v} about a known member", rc.pv, l, prune), true, nil, func(c *c32case) {
+					vsched.SetHorizon(int64(30 * time.Second)) // a pruning leave sleeps for the propagation delay
 					r := c32must(world.NewNode("rcv", 1, rc.opt()))
 					r.Events().NotifyJoin(r.MLNode("b", 2, nil))
 					r.Delegate().NotifyMsg(c32mustEnc(serf.VMsgLeave, &serf.VMessageLeave{LTime: serf.LamportTime(l), Node: "b", Prune: prune}, false))
@@ -991,7 +1003,7 @@ func c32delegate(g *c32gen) {
 			}
 		}
 	}
-	scn.Sample("receiver v3: leave{LTime:2^63 Node:\"\\xc3(\"} -> intent table [{Node:\"\\xc3(\" Type:0 LTime:2^63}]")
+	g.sample(scn, "receiver v3: leave{LTime:2^63 Node:\"\\xc3(\"} -> intent table [{Node:\"\\xc3(\" Type:0 LTime:2^63}]")
 
 	// user events reach the application unchanged
 	scn = g.ctx.Scn("delegate/user-event", "cases")
@@ -1023,7 +1035,7 @@ func c32delegate(g *c32gen) {
 			}
 		}
 	}
-	scn.Sample("receiver v2: userEvent{LTime:2^64-1 Name:\"\\xffab\" Payload:[] CC:true} -> EventCh UserEvent identical (Payload nil)")
+	g.sample(scn, "receiver v2: userEvent{LTime:2^64-1 Name:\"\\xffab\" Payload:[] CC:true} -> EventCh UserEvent identical (Payload nil)")
 
 	// queries: the application sees the fields, acks and replies go to the encoded source
 	scn = g.ctx.Scn("delegate/query", "cases")
@@ -1112,7 +1124,7 @@ func c32delegate(g *c32gen) {
 			}
 		}
 	}
-	scn.Sample("receiver v4: query{LTime:2^32 Name:\"\\xc3(\" Source:\"\\xffab\"@2001:db8::1:7946 ack} -> *Query identical; ack and reply packets to \"\\xffab/[2001:db8::1]:7946\" decode to {LTime,ID,From:rcv,...}")
+	g.sample(scn, "receiver v4: query{LTime:2^32 Name:\"\\xc3(\" Source:\"\\xffab\"@2001:db8::1:7946 ack} -> *Query identical; ack and reply packets to \"\\xffab/[2001:db8::1]:7946\" decode to {LTime,ID,From:rcv,...}")
 
 	// query responses reach the waiting query's channels unchanged
 	scn = g.ctx.Scn("delegate/query-response", "cases")
@@ -1181,7 +1193,7 @@ func c32delegate(g *c32gen) {
 			}
 		}
 	}
-	scn.Sample("querier v5 at query clock 2^63+6: response{From:\"\\xffab\" Payload:300 bytes} -> ResponseCh NodeResponse identical")
+	g.sample(scn, "querier v5 at query clock 2^63+6: response{From:\"\\xffab\" Payload:300 bytes} -> ResponseCh NodeResponse identical")
 
 	// push/pull state through MergeRemoteState
 	scn = g.ctx.Scn("delegate/push-pull", "cases")
@@ -1273,7 +1285,7 @@ func c32delegate(g *c32gen) {
 			}
 		}
 	}
-	scn.Sample("receiver v5: pushPull{StatusLTimes:{\"\\xffab\":2^63,...} LeftMembers:[\"\\xffab\",...] Events:[nil,{LTime:2^40-1 [...]},nil,{...}]} -> leave intent \"\\xffab\"@2^63+1, events delivered identical, clocks 2^40")
+	g.sample(scn, "receiver v5: pushPull{StatusLTimes:{\"\\xffab\":2^63,...} LeftMembers:[\"\\xffab\",...] Events:[nil,{LTime:2^40-1 [...]},nil,{...}]} -> leave intent \"\\xffab\"@2^63+1, events delivered identical, clocks 2^40")
 }
 
 // c32outbox drains every queued broadcast regardless of size.
@@ -1354,7 +1366,7 @@ func c32e2e(g *c32gen) {
 			}
 		}
 	}
-	scn.Sample("sender v2 UserEvent(\"\\xffab\", [], true) at clock 2^40+1 -> receiver v5 EventCh {LTime:2^40+1 Name:\"\\xffab\" Payload:nil Coalesce:true}")
+	g.sample(scn, "sender v2 UserEvent(\"\\xffab\", [], true) at clock 2^40+1 -> receiver v5 EventCh {LTime:2^40+1 Name:\"\\xffab\" Payload:nil Coalesce:true}")
 
 	scn = g.ctx.Scn("e2e/query-reply-relay", "cases")
 	senders := []c32node{{4, false}, {4, true}, {5, false}, {5, true}}
@@ -1478,8 +1490,10 @@ func c32e2e(g *c32gen) {
 									final = fw[0].User
 									var hdr serf.VRelayHeader
 									cut := len(env) - len(final)
-									if cut < 2 || env[0] != serf.VMsgRelay || !bytes.Equal(env[cut:], final) || serf.VDecode(env[1:cut], &hdr) != nil || hdr.DestName != "snd" || hdr.DestAddr.String() != "10.0.0.1:7946" {
+									if cut < 2 || env[0] != serf.VMsgRelay || !bytes.Equal(env[cut:], final) || serf.VDecode(env[1:cut], &hdr) != nil {
 										c.fail("relay: forwarded bytes differ from the relayed message", "envelope %d bytes %+q, forwarded %d bytes %+q", len(env), c32clip(env), len(final), c32clip(final))
+									} else if hdr.DestName != "snd" || hdr.DestAddr.String() != "10.0.0.1:7946" {
+										c.fail("relay: envelope names the wrong destination", "relay header decodes to %+q at %s, the querier is snd at 10.0.0.1:7946", hdr.DestName, hdr.DestAddr.String())
 									}
 								} else if len(relay) > 1 {
 									c.fail("e2e: more relays than the relay factor", "%d relay packets", len(relay))
@@ -1505,7 +1519,7 @@ func c32e2e(g *c32gen) {
 			}
 		}
 	}
-	scn.Sample("sender v5 Query(\"\\xc3(\", 300 bytes, ack, relay=1) -> receiver v2 *Query identical -> Respond([ff c3 28 00]) -> relay node forwards envelope tail byte-for-byte to snd/10.0.0.1:7946 -> ResponseCh {From:rcv Payload:[ff c3 28 00]}")
+	g.sample(scn, "sender v5 Query(\"\\xc3(\", 300 bytes, ack, relay=1) -> receiver v2 *Query identical -> Respond([ff c3 28 00]) -> relay node forwards envelope tail byte-for-byte to snd/10.0.0.1:7946 -> ResponseCh {From:rcv Payload:[ff c3 28 00]}")
 
 	scn = g.ctx.Scn("e2e/push-pull", "cases")
 	for _, sn := range nodes {
@@ -1580,7 +1594,7 @@ func c32e2e(g *c32gen) {
 			}
 		}
 	}
-	scn.Sample("sender v3 knows b@2^33 and left member@2^33+5, two user events -> LocalState -> receiver v2: same clocks, join intents snd/b, leave intent for the left member at 2^33+6, both events delivered")
+	g.sample(scn, "sender v3 knows b@2^33 and left member@2^33+5, two user events -> LocalState -> receiver v2: same clocks, join intents snd/b, leave intent for the left member at 2^33+6, both events delivered")
 }
 
 var _ = net.IPv4
